@@ -225,19 +225,10 @@ func (m *monC20) OnStep(r *Runner, st *Step) {
 			r.Violate("C20.c", fmt.Sprintf("all-delegations:limit%d", lim), fmt.Sprintf("query-only %v reference-only %v", trimList(a), trimList(b)))
 			return
 		}
-		if lim == 0 {
-			// reported balance = floor(exact value + rounder), within the fixed-point tolerance
-			for _, pk := range s.DelOrder {
-				bal := ratInt(balances[pk.Del+"|"+pk.Val+"|"+pk.Denom])
-				exact := s.PosValue(pk)
-				if s.Assets[pk.Denom].TotalValidatorShares.IsZero() {
-					continue
-				}
-				tol := s.tolFor(pk.Val, pk.Denom, exact)
-				if !within(bal, exact, tol) {
-					r.Violate("C20.c", "reported-balance", fmt.Sprintf("%s: reported balance %s, exact value %s (tol %s)", pk, rstr(bal), rstr(exact), rstr(tol)))
-					return
-				}
+		// reported balance = floor(exact value + rounder), within the fixed-point tolerance - on every page size
+		for _, pk := range s.DelOrder {
+			if b, ok := balances[pk.Del+"|"+pk.Val+"|"+pk.Denom]; ok && !m.balanceOK(r, s, pk, b, fmt.Sprintf("all-delegations listing (page size %d)", lim)) {
+				return
 			}
 		}
 	}
@@ -257,22 +248,46 @@ func (m *monC20) OnStep(r *Runner, st *Step) {
 			continue
 		}
 		sort.Strings(wantD)
-		resp, err := r.QS.AlliancesDelegation(ctx, &alliancetypes.QueryAlliancesDelegationsRequest{DelegatorAddr: da})
-		if err != nil {
-			r.Violate("C20.c", "delegations-by-delegator-error:"+m.listingErrClass(s, err.Error()), err.Error())
-			if r.failed() {
+		listingFailed := false
+		for _, pat := range [][]uint64{{0}, {1}, {2}, {1, 2}} {
+			var got []string
+			var key []byte
+			for i := 0; i < 100; i++ {
+				req := &alliancetypes.QueryAlliancesDelegationsRequest{DelegatorAddr: da}
+				if lim := pat[i%len(pat)]; lim > 0 {
+					req.Pagination = &query.PageRequest{Limit: lim, Key: key}
+				}
+				resp, err := r.QS.AlliancesDelegation(ctx, req)
+				if err != nil {
+					r.Violate("C20.c", "delegations-by-delegator-error:"+m.listingErrClass(s, err.Error()), err.Error())
+					if r.failed() {
+						return
+					}
+					listingFailed = true
+					break
+				}
+				for _, x := range resp.Delegations {
+					got = append(got, x.Delegation.DelegatorAddress+"|"+x.Delegation.ValidatorAddress+"|"+x.Delegation.Denom)
+					if !m.balanceOK(r, s, PosKey{Del: x.Delegation.DelegatorAddress, Val: x.Delegation.ValidatorAddress, Denom: x.Delegation.Denom}, x.Balance.Amount, fmt.Sprintf("by-delegator listing (page sizes %v)", pat)) {
+						return
+					}
+				}
+				if pat[0] == 0 || resp.Pagination == nil || len(resp.Pagination.NextKey) == 0 {
+					break
+				}
+				key = resp.Pagination.NextKey
+			}
+			if listingFailed {
+				break
+			}
+			sort.Strings(got)
+			if a, b := diffMultiset(got, wantD); len(a)+len(b) > 0 {
+				r.Violate("C20.c", "delegations-by-delegator", fmt.Sprintf("page sizes %v: query-only %v reference-only %v", pat, trimList(a), trimList(b)))
 				return
 			}
+		}
+		if listingFailed {
 			continue
-		}
-		var got []string
-		for _, x := range resp.Delegations {
-			got = append(got, x.Delegation.DelegatorAddress+"|"+x.Delegation.ValidatorAddress+"|"+x.Delegation.Denom)
-		}
-		sort.Strings(got)
-		if a, b := diffMultiset(got, wantD); len(a)+len(b) > 0 {
-			r.Violate("C20.c", "delegations-by-delegator", fmt.Sprintf("query-only %v reference-only %v", trimList(a), trimList(b)))
-			return
 		}
 		// per (delegator, validator), paginated with limit 1 and unpaginated; and the single-record query
 		for _, v := range s.StValOrder {
@@ -305,6 +320,9 @@ func (m *monC20) OnStep(r *Runner, st *Step) {
 					}
 					for _, x := range rv.Delegations {
 						gotV = append(gotV, x.Delegation.DelegatorAddress+"|"+x.Delegation.ValidatorAddress+"|"+x.Delegation.Denom)
+						if !m.balanceOK(r, s, PosKey{Del: x.Delegation.DelegatorAddress, Val: x.Delegation.ValidatorAddress, Denom: x.Delegation.Denom}, x.Balance.Amount, "by-delegator-and-validator listing") {
+							return
+						}
 					}
 					if lim == 0 || rv.Pagination == nil || len(rv.Pagination.NextKey) == 0 {
 						break
@@ -346,6 +364,24 @@ func (m *monC20) mergedOnly(del string) bool {
 		seen[k] = e.Src
 	}
 	// two entries from the same source merge as well (amounts are summed, which is a faithful view)
+	return false
+}
+
+// balanceOK: a balance reported for a position by any query equals floor(exact value + rounder) within the
+// fixed-point tolerance of that position.
+func (m *monC20) balanceOK(r *Runner, s *Snap, pk PosKey, bal sdkmath.Int, where string) bool {
+	if _, ok := s.Dels[pk]; !ok {
+		return true
+	}
+	if a, ok := s.Assets[pk.Denom]; !ok || a.TotalValidatorShares.IsZero() {
+		return true
+	}
+	exact := s.PosValue(pk)
+	tol := s.tolFor(pk.Val, pk.Denom, exact)
+	if within(ratInt(bal), exact, tol) {
+		return true
+	}
+	r.Violate("C20.c", "reported-balance", fmt.Sprintf("%s in the %s: reported balance %s, exact value %s (tol %s)", pk, where, bal, rstr(exact), rstr(tol)))
 	return false
 }
 
